@@ -390,6 +390,7 @@ func c10BackupCase(o *Out, go1, go2 bool, o1, o2 fakeOutcome, order int) {
 	go func() { resCh <- xc.Call(context.Background(), "M", 1, reply) }()
 	var err error
 	returned := false
+	var atReturn [2]interface{} // the reply as it was when Call returned
 	wait := func(d time.Duration) {
 		if returned {
 			return
@@ -397,6 +398,7 @@ func c10BackupCase(o *Out, go1, go2 bool, o1, o2 fakeOutcome, order int) {
 		select {
 		case err = <-resCh:
 			returned = true
+			atReturn = [2]interface{}{reply.Delivery, reply.Addr}
 		case <-time.After(d):
 		}
 	}
@@ -455,6 +457,16 @@ func c10BackupCase(o *Out, go1, go2 bool, o1, o2 fakeOutcome, order int) {
 	}
 	if res == "nilNoReply" {
 		o.Violate("c10.backup.untruthful-success", "Failbackup returned a nil error but no attempt was answered successfully", rp)
+	}
+	// the reply the call returned with is that attempt's, for good: the other attempt, answered later (both
+	// gates are open by now), must not write into the caller's reply any more
+	if err == nil && returned {
+		time.Sleep(15 * time.Millisecond)
+		if now := [2]interface{}{reply.Delivery, reply.Addr}; now != atReturn {
+			rp["reply_when_Call_returned"] = fmt.Sprint(atReturn)
+			rp["reply_later"] = fmt.Sprint(now)
+			o.Violate("c10.backup.reply-changed-after-return", "the reply of a successful Failbackup call changed after Call had returned: the abandoned attempt, answered later, wrote into the caller's reply", rp)
+		}
 	}
 }
 
